@@ -6,6 +6,7 @@ import (
 	"net/url"
 	"time"
 
+	"github.com/buildbuildio/pebbles/common"
 	"github.com/buildbuildio/pebbles/requests"
 	"github.com/gobwas/ws"
 	"github.com/gobwas/ws/wsutil"
@@ -51,14 +52,17 @@ func (q *MultiOpQueryer) Subscribe(req *requests.Request, closeCh <-chan struct{
 		}()
 		<-closeCh
 		conn.Close()
+		common.VerifPoint("sub.u1.closed", closeCh)
 	}()
 
 	// send delivers response unless subscription is closed by the other side
 	send := func(resp *requests.Response) bool {
 		select {
 		case resCh <- resp:
+			common.VerifPoint("sub.u2.delivered", closeCh, resp == nil)
 			return true
 		case <-closeCh:
+			common.VerifPoint("sub.u2.aborted", closeCh, resp == nil)
 			return false
 		}
 	}
@@ -112,6 +116,7 @@ func (q *MultiOpQueryer) Subscribe(req *requests.Request, closeCh <-chan struct{
 		for {
 			msg, err := wsutil.ReadServerText(conn)
 			if err != nil {
+				common.VerifPoint("sub.u2.end_closed", closeCh)
 				return
 			}
 
@@ -120,8 +125,10 @@ func (q *MultiOpQueryer) Subscribe(req *requests.Request, closeCh <-chan struct{
 				// try to unmarshal as error msg
 				var serverErrorResp requests.ServerSubErorrMsg
 				if innerErr := json.Unmarshal(msg, &serverErrorResp); innerErr != nil {
+					common.VerifPoint("sub.u2.end_msg", closeCh)
 					return
 				}
+				common.VerifPoint("sub.u2.read", closeCh)
 				if !send(&requests.Response{
 					Errors: serverErrorResp.Payload,
 				}) {
@@ -135,8 +142,10 @@ func (q *MultiOpQueryer) Subscribe(req *requests.Request, closeCh <-chan struct{
 				requests.SubConnectionError,
 				requests.SubConnectionTerminate,
 				requests.SubError:
+				common.VerifPoint("sub.u2.end_msg", closeCh)
 				return
 			case requests.SubData:
+				common.VerifPoint("sub.u2.read", closeCh)
 				if !send(serverResp.Payload) {
 					return
 				}
